@@ -3,6 +3,7 @@ import MosnVerif.Lemmas.TlsUpdate
 import MosnVerif.Model.TlsTrust
 import MosnVerif.Model.TlsConnect
 import MosnVerif.Lemmas.TlsSds
+import MosnVerif.Lemmas.TlsAccept
 /-!
 # C13 — TLS policy is enforced as configured (property theorems only)
 
@@ -622,4 +623,74 @@ example :
     specListenerObs (specCtx ⟨false, false, []⟩ none ops) sdsCN .none = some (some 1, false) ∧
     ((ops ++ [SOp.pushEmpty]).foldl stepTemplateOnly (create (⟨false, false, []⟩ : LPol) none true)).ctx = some ((⟨true, true, []⟩ : LPol), 1) := by decide
 end SdsUpdate
+/-! ## the accept path with use_original_dst (pkg/server/handler.go, originaldst listener filter; `Gen/TlsAccept.lean`) -/
+section AcceptPath
+open MosnVerif.Model.TlsAccept MosnVerif.Lemmas.TlsAccept MosnVerif.Gen.TlsAccept MosnVerif.Gen.TlsConnect
+
+/-- **every_accepted_connection_passes_its_listeners_tls**: for EVERY table of listeners (which of the accepting listener
+A, the listener B matching the original destination and the fallback-ip listener C have a TLS manager, which managers
+fail), every outcome of the original-destination lookup (read or not, B exists or not, C exists or not), with and
+without use_original_dst, transferred or not: the path from the raw accept ends in `newConnection` of the listener that
+must own the connection (B, else C, else A) and on the way the connection went through `tlsMng.Conn` of exactly that
+listener, exactly once, and of no other (not at all when the owner has no manager or the old process already wrapped
+it) — or the owner's manager failed and the connection was closed. The guard around the TLS block, the filter's three
+answers, the end of the filter chain and the three branches of UseOriginalDst are regenerated. -/
+theorem every_accepted_connection_passes_its_listeners_tls (e : Env) (useOrig : Bool) (htcp : e.isTCP = true) :
+    let tr := accept e 3 .self useOrig
+    let o := specOwner useOrig e.lookupOk e.matched e.localMatched
+    (tr.getLast? = some (.serve o) ∧ wraps tr = (if e.mng o && !e.transferred then [o] else [])) ∨
+    (tr = [.closed o] ∧ e.mng o = true ∧ e.transferred = false ∧ e.mngErr o = true) := by
+  have h := pathOk_all e useOrig htcp
+  unfold pathOk at h
+  rw [Bool.or_eq_true] at h
+  rcases h with h | h
+  · rw [Bool.and_eq_true, beq_iff_eq, beq_iff_eq] at h
+    exact Or.inl h
+  · simp only [Bool.and_eq_true, beq_iff_eq, Bool.not_eq_true'] at h
+    exact Or.inr ⟨h.1.1.1, h.1.1.2, h.1.2, h.2⟩
+
+/-- **tls_listener_with_original_dst_never_raw**: a listener with a TLS manager never serves a freshly accepted TCP
+connection that did not go through its `tlsMng.Conn` — whichever way the connection reached it. -/
+theorem tls_listener_with_original_dst_never_raw (e : Env) (useOrig : Bool) (htcp : e.isTCP = true) (hnt : e.transferred = false)
+    (t : Target) (hs : (accept e 3 .self useOrig).getLast? = some (.serve t)) (hm : e.mng t = true) :
+    wraps (accept e 3 .self useOrig) = [t] := by
+  have h := every_accepted_connection_passes_its_listeners_tls e useOrig htcp
+  simp only at h
+  rcases h with ⟨h1, h2⟩ | ⟨h1, _⟩
+  · rw [h1] at hs
+    have : specOwner useOrig e.lookupOk e.matched e.localMatched = t := by simpa using hs
+    rw [this] at h2
+    simpa [hm, hnt] using h2
+  · rw [h1] at hs; simp at hs
+
+-- instances: the three outcomes, the failed lookup, a listener without use_original_dst
+def exAll : Env := ⟨fun _ => true, fun _ => false, false, true, true, true, true⟩
+example : accept exAll 3 .self true = [.wrap .matched, .serve .matched] := by decide
+example : accept { exAll with matched := false } 3 .self true = [.wrap .localFallback, .serve .localFallback] := by decide
+example : accept { exAll with matched := false, localMatched := false } 3 .self true = [.wrap .self, .serve .self] := by decide
+example : accept { exAll with lookupOk := false } 3 .self true = [.wrap .self, .serve .self] := by decide
+example : accept exAll 3 .self false = [.wrap .self, .serve .self] := by decide
+example : accept { exAll with mngErr := fun _ => true, matched := false } 3 .self true = [.closed .localFallback] := by decide
+example : exAll.isTCP = true := rfl
+/-- NEGATION WITNESS 1: the 'nothing matches' branch of UseOriginalDst serving the connection directly
+(`arc.activeListener.newConnection(ctx, arc.rawc)`, "avoid accepting twice"): a listener with TLS contexts serves the
+raw socket. -/
+def acceptDirectSelf (e : Env) (useOrig : Bool) : List Ev :=
+  let pre := if acceptWrapGuard useOrig && e.mng .self && !e.transferred then [Ev.wrap .self] else []
+  if acceptAddsOrigDst useOrig then
+    match origDstFilter true e.lookupOk e.isTCP with
+    | .redirect addrSet =>
+      if addrSet && e.matched then pre ++ accept e 2 .matched false
+      else if addrSet && e.localMatched then pre ++ accept e 2 .localFallback false
+      else pre ++ [.serve .self]
+    | _ => pre ++ [.serve .self]
+  else pre ++ [.serve .self]
+example : acceptDirectSelf { exAll with matched := false, localMatched := false } true = [.serve .self] ∧
+    wraps (acceptDirectSelf { exAll with matched := false, localMatched := false } true) = [] ∧
+    acceptDirectSelf exAll true = [.wrap .matched, .serve .matched] := by decide
+/-- NEGATION WITNESS 2 (the repaired defect): the filter answering a failed lookup with Continue -/
+def origDstFilterOld (useOrig lookupOk : Bool) : FilterOut :=
+  if !useOrig then .continue else if !lookupOk then .continue else .redirect true
+example : origDstFilterOld true false = .continue ∧ chainEnd = .serve .self ∧ acceptWrapGuard true = false := by decide
+end AcceptPath
 end MosnVerif.Props.C13
